@@ -843,14 +843,19 @@ impl Builder {
                 let n = self.rng.below(3);
                 let args: Vec<Ex> = (0..n).map(|_| self.expr(ed)).collect();
                 let mut call = self.call(f, args);
+                let mut is_new = false;
                 if self.rng.chance(1, 6) {
                     let c = self.var("Child");
                     let a = self.expr(ed);
                     let cc = self.call(c, vec![a]);
                     call = self.ex(E::Un(UnOp::New, Box::new(cc)));
+                    is_new = true;
                 }
                 let call = self.fin(call);
-                let returns = if self.rng.chance(2, 3) {
+                let returns = if !is_new && self.rng.chance(1, 3) {
+                    // `try x.f() { .. } catch ..`: a success block without a `returns` clause (no parameters)
+                    Some((vec![], Box::new(self.block(d, false))))
+                } else if self.rng.chance(2, 3) {
                     let ps = self.params(self.rng.range(1, 2), true, 1);
                     for p in &ps {
                         if let Some(n) = &p.name {
